@@ -15,7 +15,9 @@
 (* 2 x BufSize bytes, so buffer boundaries and probe windows fall at every *)
 (* position relative to the lines.                                         *)
 (*                                                                         *)
-(* Pick also emits each file's layout once; the orchestrator turns a       *)
+(* Pick also emits each file's layout once, with the alignment classes     *)
+(* (QLogFileAlg!ReadClasses, !ProbeClasses) its reads and probes fall      *)
+(* into; the orchestrator turns a                                          *)
 (* seeded selection (quick) or all of them (thorough) into real files, the *)
 (* lengths being read as FRACTIONS of the real limits (direction A/B).     *)
 (***************************************************************************)
@@ -40,7 +42,7 @@ Pick == /\ st = "pick"
         /\ \E ls \in LenSeqs :
              /\ ends' = EndsOf(ls)
              /\ tss' = [i \in 1..Len(ls) |-> 2 * i]
-             /\ PrintT(<<"@@V", ToJson([lens |-> ls])>>)
+             /\ PrintT(<<"@@V", ToJson([lens |-> ls, rc |-> ReadClasses', pc |-> ProbeClasses'])>>)
         /\ st' = "run"
         /\ UNCHANGED <<position, bufferStart, bufNil, pc, searchVars, seeked, out>>
 
